@@ -283,7 +283,41 @@ def unicode_1029(draw):
     return draw(gen.messages("1029", "small", fixed=fixed))
 
 
+# ------------------------------------------------------------------ (5) the same decode in an optimised interpreter
+def o_optimized(case):
+    """python -O removes assert statements: decoding must not depend on them"""
+    from pv import child
+
+    reqs = [{"payload": p, "lm": 1} for p in case["batch"]]
+    res = child.decode_in_child(reqs, optimize=True)
+    for hx, r in zip(case["batch"], res):
+        payload = bytes.fromhex(hx)
+        ident, w = model.decode(payload)
+        if not r["ok"]:
+            raise Fail("python-O-rejects-valid-message", f"{ident}: {r['exc']} under python -O; payload {hx[:100]}")
+
+        class _M:
+            pass
+
+        m = _M()
+        m.__dict__.update({k: v for k, v in r["attrs"]})
+        compare(payload, w, m, "python-O")
+    return Res(nontrivial=True, classes=["python-O"], evals=len(reqs))
+
+
+@st.composite
+def s_optimized(draw, ids):
+    return {"batch": [draw(gen.messages(draw(st.sampled_from(ids)), "small"))["payload"] for _ in range(10)]}
+
+
+def plan_optimized(tier, shard, nshards):
+    ids = gen.decodable_idents()[shard::nshards]
+    return [("", s_optimized(ids), 2 if tier == "quick" else 30)] if ids else []
+
+
 def _short(c):
+    if "batch" in c:
+        return {"batch": [b[:60] for b in c["batch"][:3]], "n": len(c["batch"])}
     c = dict(c)
     if len(c.get("payload", "")) > 160:
         c["payload_len"] = len(c["payload"]) // 2
@@ -295,5 +329,6 @@ SUBS = [
     Sub("decode_all_identities", o_decode, plan=plan_decode, rule="all identities x generated messages; expected list from the independent interpreter", need={"group-iteration": 1, "negative": 1, "msm": 1, "optional-group": 1, "nested-group": 1, "index>=10": 1}, sample=_short),
     Sub("one_field_change", o_field, plan=plan_field, rule="new raw value differs from the old one", sample=_short),
     Sub("reader_path_with_crc_twins", o_reader, plan=plan_reader, rule="a CRC twin (same type, length and CRC trailer, different payload) could be built", need={"with-crc-twin": 1}, sample=_short),
+    Sub("decode_under_python_O", o_optimized, plan=plan_optimized, rule="every case: 10 messages decoded in a python -O child and compared with the interpreter", sample=_short),
     Sub("trailing_bytes", o_tail, plan=plan_tail, rule="padding bits or tail differ from the canonical payload", sample=_short),
 ]
